@@ -834,7 +834,7 @@ def c16_build(rng, h):
     secs = sorted({r["sec"] for r in h["rows"]})
     sym = rng.choice(secs)
     n = rng.choice(["10", "100", "3", "7.5", "0.001", "33.3333", gen.rand_dec(rng, 1, 500, rng.choice([0, 2, 4])), "0"])
-    c = rng.choice(["0", "100", "1234.56", gen.rand_dec(rng, 0, 50000, 2), "0.01"])
+    c = rng.choice(["0", "100", "1234.56", gen.rand_dec(rng, 0, 50000, 2), "0.01", "100.123456", gen.rand_dec(rng, 0, 50000, rng.choice([3, 4, 6, 8]))])
     if Fraction(n) == 0:
         c = "0"
     first = min(datetime.date.fromisoformat(r["td"]) for r in h["rows"])
